@@ -395,7 +395,7 @@ Definition call_cmd (now : Z) (d : db) (pcall : bool) (vals : list lval) : conv 
   | Some [] => fail                                           (* "No command specified" *)
   | Some (nm :: rest) =>
       if blocked (upper nm) then fail else
-      match Exec.run now d (map FBulk (nm :: rest)) None with
+      match exec_run now d (map FBulk (nm :: rest)) None with
       | (r, d') => (resp_to_lua pcall r, d')
       end
   end.
